@@ -41,7 +41,10 @@ def alphabet(tier: str, variant: str = "full") -> Tuple[List[List[tuple]], List[
           [("TXT", X, FL, 4500, b"\x01d"), PTR(TA, X, 4500)],
           # the same pointer withdrawn and asserted inside one datagram, in both orders (whatever the cache ends up
           # holding, the callbacks must say the same)
-          [PTR(TA, X, 0), PTR(TA, X, 4500)], [PTR(TA, X, 4500), PTR(TA, X, 0)]]
+          [PTR(TA, X, 0), PTR(TA, X, 4500)], [PTR(TA, X, 4500), PTR(TA, X, 0)],
+          # a CNAME record whose owner is the browsed type (the decoder represents it with the class it uses for pointers, but
+          # it is no pointer record: nothing is Added or Removed for it)
+          [("CNAME", TA, IN, 4500, X)], [("CNAME", TA, IN, 0, X)]]
     if tier != "quick":
         d += [[PTR(TA, Y, 1125)], [PTR(TA, Y, 4500, FL)], [PTR(TA, X, 2)], [PTR(TA, X, 0), PTR(TB, Z, 4500)],
               [PTR(TA, Y, 0), PTR(TA, X, 0)], [("SRV", X, FL, 0, 0, 0, 80, "h.local.")], [("A", "h.local.", FL, 0, IP)],
@@ -57,7 +60,7 @@ def alphabet(tier: str, variant: str = "full") -> Tuple[List[List[tuple]], List[
                                   [PTR(TA, XU, 4500)], [PTR(TA, X, 4500, FL)], [PTR(TA, X, 0), PTR(TA, Y, 4500)],
                                   [PTR(TA, X, 1), PTR(TA, X, 4500)], d[15], [PTR(TB, Z, 4500)],
                                   [("TXT", X, FL, 4500, b"\x01c"), PTR(TA, X, 0)], [PTR(TA, X, 0), PTR(TA, X, 4500)],
-                                  [PTR(TA, X, 4500), PTR(TA, X, 0)])}
+                                  [PTR(TA, X, 4500), PTR(TA, X, 0)], [("CNAME", TA, IN, 4500, X)], [("CNAME", TA, IN, 0, X)])}
         d = [x for x in d if repr(x) in keep]
         steps = [1, 1000, 1001, 10000, 1125001, 4500000]
     ops = [("start", "a"), ("cancel", "a"), ("start", "ab")]
